@@ -5,6 +5,7 @@ package dnsforward
 // C02 — upstream answers revealing a blocked CNAME target or address are not delivered.
 //
 //vx:overlay internal/dnsforward/zz_vx_c02.go
+//vx:native
 //vx:entry vxC02Response reach=replaced,delivered,allowlisted-name,protection-off,filtering-off,https-hint-blocked,aaaa-disabled
 //vx:stub (*github.com/AdguardTeam/dnsproxy/proxy.Proxy).Resolve vxC02Resolve
 //vx:note drives the real handleDNSRequest pipeline; upstream answer section of 0..2 (quick) / 0..3 (thorough) records, each CNAME / A / AAAA / HTTPS (ipv4hint and ipv6hint lists of 0..2 addresses, either order) / TXT; for every name or address handed to the rule engines a fresh symbolic pair of verdicts (allow engine, block engine); protection, global/client filtering, allow-listing of the queried name: quick = the applicable case and each single reason for not applying, thorough = all combinations; AAAA-disabled symbolic; question type A (quick) / A, AAAA, HTTPS (thorough)
